@@ -385,9 +385,17 @@ def run_case(case):
         nv = len(viol)
         o, units_mech = compare(ref, oth, float(s), cfg, viol, tag, pot1, pot_s)
         outl = [k for k in ("H", "L")
-                if sp_o.get(k, {}).get("start_row_jump_over_neighbour_spread", 0) > 5
-                and sp_o[k].get("start_row_jump_over_scale", 0) >
-                10 * sp_r.get(k, {}).get("start_row_jump_over_scale", 0)]
+                if (sp_o.get(k, {}).get("start_row_jump_over_neighbour_spread", 0) > 5
+                    and sp_o[k].get("start_row_jump_over_scale", 0) >
+                    10 * sp_r.get(k, {}).get("start_row_jump_over_scale", 0))
+                # or: the row located by the minimiser sits >= 8x farther off the smooth curve
+                # through its ODE-located neighbours than in the reference run, by both
+                # measures (thorough tier: c_s^2 off by 8e-4 / c_b^2 by 8e-5 with ratios 49x
+                # and 11x; the row is no gross outlier, but the kink is the same mechanism)
+                or (sp_o.get(k, {}).get("start_row_jump_over_neighbour_spread", 0) >=
+                    8 * sp_r.get(k, {}).get("start_row_jump_over_neighbour_spread", np.inf)
+                    and sp_o[k].get("start_row_jump_over_scale", 0) >=
+                    8 * sp_r.get(k, {}).get("start_row_jump_over_scale", np.inf))]
         if outl and not dup and any(x["mech"].startswith(("not-covariant:eos",
                                                           "not-covariant:hydro",
                                                           "not-covariant:lte"))
